@@ -1013,7 +1013,28 @@ func (g *hgen) malformed() []byte {
 	if len(src) == 0 {
 		return src
 	}
-	switch k := r.Intn(7); k {
+	switch k := r.Intn(9); k {
+	case 7, 8: // drop or insert one string quote: an unterminated literal followed by further lines with quotes
+		var qs []int
+		for i, c := range src {
+			if c == '"' || c == '`' {
+				qs = append(qs, i)
+			}
+		}
+		if len(qs) == 0 {
+			return append(append([]byte{}, src...), g.pick("\nimport \"fmt\nimport \"os\"\nvar x = 1\n", "\nimport `fmt\nimport `os`\n")...)
+		}
+		i := qs[r.Intn(len(qs))]
+		if r.Intn(3) == 0 { // swap the quote kind instead
+			b := append([]byte{}, src...)
+			if b[i] == '"' {
+				b[i] = '`'
+			} else {
+				b[i] = '"'
+			}
+			return b
+		}
+		return append(append([]byte{}, src[:i]...), src[i+1:]...)
 	case 0, 1: // truncation
 		return src[:r.Intn(len(src)+1)]
 	case 2, 3: // single byte corruption
@@ -1051,6 +1072,110 @@ func enumTokens(maxLen int, f func([]byte)) {
 		}
 	}
 	rec(nil)
+}
+
+type posMsg struct {
+	off int
+	msg string
+}
+
+// headerParse: go/parser (ImportsOnly) on src: all errors and all import literals with their offsets.
+func headerParse(src []byte) (errs []posMsg, lits []posMsg) {
+	fset := token.NewFileSet()
+	f, err := parser.ParseFile(fset, "x.go", src, parser.ImportsOnly)
+	if err != nil {
+		var el scanner.ErrorList
+		if errors.As(err, &el) {
+			for _, e := range el {
+				errs = append(errs, posMsg{e.Pos.Offset, e.Msg})
+			}
+		} else {
+			errs = append(errs, posMsg{-1, err.Error()})
+		}
+	}
+	if f != nil {
+		for _, s := range f.Imports {
+			if s.Path != nil {
+				lits = append(lits, posMsg{fset.Position(s.Path.Pos()).Offset, s.Path.Value})
+			}
+		}
+	}
+	return errs, lits
+}
+
+func before(xs []posMsg, n int) []posMsg {
+	var out []posMsg
+	for _, x := range xs {
+		if x.off < n {
+			out = append(out, x)
+		}
+	}
+	return out
+}
+
+func eqPosMsgs(a, b []posMsg) bool {
+	if len(a) != len(b) {
+		return false
+	}
+	for i := range a {
+		if a[i].off != b[i].off || normLit(a[i].msg) != normLit(b[i].msg) {
+			return false
+		}
+	}
+	return true
+}
+
+// prefixReparseOracle — the arbitrary-bytes clause: whenever ReadImports(I, reportSyntaxError=false)
+// returns (P, nil) with P a proper prefix of I (BOM aside), a parse of P must tell the same story as a
+// parse of I as far as P reaches: errors or not, the same first error (position and message) and the same import literals
+// at offsets inside P; and when go/parser accepts I's header, the parser's list starts ReadImports' list.
+// Errors and tokens at or beyond len(P) are out of scope: ReadImports stops at the first byte of what
+// follows the imports and is deliberately lax about it (as go/build's reader is).
+func prefixReparseOracle(res *corr.Result, in string, body []byte, r0 readResult) {
+	if r0.err != nil || bytes.Equal(r0.buf, body) || !bytes.HasPrefix(body, r0.buf) {
+		return
+	}
+	res.Distribution["read-proper-prefix-returned"]++
+	p := r0.buf
+	if bytes.Contains(p, []byte("\\\n")) {
+		// Known quirk shared with go/build's reader: inside an interpreted string the escape branch
+		// swallows the byte after a backslash unchecked, so `"a\<NL>import"` passes as one literal and the
+		// prefix can end inside a later Go token (witness: "package i\nimport.\"a+b\\\nimport\"\";\nconst c = 1\n").
+		// Not judged here (reported to the coordinator); counted so that the exemption stays visible.
+		res.Distribution["read-prefix-oracle-exempt-backslash-newline"]++
+		return
+	}
+	errsI, litsI := headerParse(body)
+	errsP, litsP := headerParse(p)
+	n := len(p)
+	eI, eP := before(errsI, n), before(errsP, n)
+	lI, lP := before(litsI, n), before(litsP, n)
+	switch {
+	case (len(eI) > 0) != (len(eP) > 0):
+		res.Violate("C18", in, fmt.Sprintf("returned prefix (%d of %d bytes, nil error): parse of the prefix has errors inside it = %v, parse of the input = %v", n, len(body), len(eP) > 0, len(eI) > 0), "prefix-reparse-differs")
+	case len(eI) > 0 && !eqPosMsgs(eI[:1], eP[:1]):
+		// Only the first error is compared: ReadImports' escape branch swallows a newline after a backslash
+		// (as go/build's reader does), so for `import "a\<NL>"b"` the prefix ends with the quote that
+		// opens the Go token "b": the parse of the prefix then has one more error, at its very last byte
+		// ("string literal not terminated"), after the same first error.
+		res.Violate("C18", in, fmt.Sprintf("returned prefix (%d of %d bytes, nil error): first error inside the prefix differs: input %v, prefix %v", n, len(body), eI[0], eP[0]), "prefix-reparse-differs")
+	case !eqPosMsgs(lI, lP):
+		res.Violate("C18", in, fmt.Sprintf("returned prefix (%d of %d bytes, nil error): import literals inside the prefix differ: input %q, prefix %q", n, len(body), lI, lP), "prefix-reparse-differs")
+	case len(errsI) == 0:
+		var want []string
+		for _, l := range litsI {
+			want = append(want, l.msg)
+		}
+		// ReadImports treats ';' as white space (as go/build's reader does), so after an empty statement
+		// (`import "a";;import "b"`, not valid Go, but ImportsOnly does not complain: it just stops) it
+		// goes on where go/parser stops: the parser's list is then a proper prefix of ReadImports' list.
+		// Equality is required (by the valid-file oracle) when the whole file parses.
+		if len(want) > len(r0.imps) || !eqStrs(want, r0.imps[:len(want)]) {
+			res.Violate("C18", in, fmt.Sprintf("go/parser accepts the header with imports %q, ReadImports reports %q", want, r0.imps), "prefix-reparse-differs")
+		} else if len(want) < len(r0.imps) {
+			res.Distribution["read-more-imports-than-importsonly-parser(empty-statement)"]++
+		}
+	}
 }
 
 // readOracle checks C18 on the implementation for one input; wantLits != nil when the generator knows the imports.
@@ -1094,6 +1219,7 @@ func readOracle(res *corr.Result, d []byte, wantLits []string, generatedValid bo
 	if errKind(r1.err) == "nul" {
 		res.Distribution["read-nul-error"]++
 	}
+	prefixReparseOracle(res, in, body, r0)
 	// agreement with go/parser whenever the file is valid Go (full parse) or was generated as valid
 	_, fullOK := parserImports(d, parser.SkipObjectResolution)
 	pl, impOK := parserImports(d, parser.ImportsOnly)
@@ -1215,6 +1341,13 @@ func runC18(res *corr.Result, r *rand.Rand, tier, model string) int {
 	add([]byte("\xef\xbb\xbf"), nil, false)
 	add([]byte("\xef\xbb"), nil, false)
 	add([]byte("package p\nimport \"a\"\nimport . \"b\"\nimport _ `c`\nimport x \"d\"\nvar v int\n"), []string{`"a"`, `"b"`, "`c`", `"d"`}, true)
+	for _, s := range []string{
+		"package p\nimport \"fmt\nimport \"os\"\nvar x = 1\n", "package p\nimport `fmt\nimport `os`\nvar x = 1\n",
+		"package p\nimport (\n\t\"fmt\n\t\"os\"\n)\nvar x = \"y\"\n", "package p\nimport \"a\\\n\"\nvar x = 1\n", "package p\nimport \"a\nimport \"b\nimport \"c\"\nfunc f() {}\n",
+		"package p\nimport x \"fmt\n\"os\"\n", "package _x\nimport\r\n\"a\\\n\"b\"\nvar (\n\ti = 1\n)\n", "package p\nimport \"a\" var x = 1\n", "package p import \"a\"\nvar x = 1\n", "package p\nimport \"a\"\n$\n",
+	} {
+		add([]byte(s), nil, false)
+	}
 	for _, s := range []string{"", "package", "package p", "package p;import", "package p\nimport(", "package p\nimport \"a", "package p\nimport `a", "package p /*", "package p //", "package p\x00", "package p\nimport \"a\\", "package p\nimport \"a\n\"", "x", "package p\nimport \"a\"\nimport", "package p\nimport . . \"a\"", "package p import \"a\"", "package pimport \"a\"", "package p;import\"a\";import`b`;import(\"c\");func"} {
 		add([]byte(s), nil, false)
 	}
